@@ -125,6 +125,7 @@ type Stats struct {
 	Assumptions  map[string]int
 	MaxDepth     int
 	Fallbacks, Fallbacks2 int
+	PortfolioZ3 int
 }
 
 type Exec struct {
@@ -390,13 +391,16 @@ func (ex *Exec) sat(pc *PCNode, extra *Term) Result {
 	if !ex.noCvc5 {
 		t0 := time.Now()
 		script := ex.alt.Standalone(pc, extra, "ALL")
-		r2 := oneShot(script, 8*time.Second, "cvc5", "--solve-bv-as-int=sum")
+		r2, who := portfolio(script, 10*time.Second)
 		ex.cvc5Time += time.Since(t0)
 		if dir := os.Getenv("VCHECK_DUMPSLOW"); dir != "" && time.Since(t0) > 200*time.Millisecond {
 			os.WriteFile(fmt.Sprintf("%s/cvc5_%d.smt2", dir, ex.stats.Fallbacks), []byte(script), 0o644)
 		}
 		if r2 == Unsat {
 			ex.stats.Fallbacks2++
+			if who == "z3" {
+				ex.stats.PortfolioZ3++
+			}
 			return Unsat
 		}
 	}
@@ -627,8 +631,8 @@ func (ex *Exec) site(st *State) string {
 		if pos != token.NoPos {
 			p := ex.prog.Fset.Position(pos)
 			fn := p.Filename
-			if k := strings.Index(fn, "/repo/"); k >= 0 {
-				fn = fn[k+6:]
+			if strings.HasPrefix(fn, repoRoot+"/") {
+				fn = fn[len(repoRoot)+1:]
 			} else if k := strings.LastIndex(fn, "/src/"); k >= 0 {
 				fn = fn[k+5:]
 			}
@@ -860,7 +864,7 @@ func (ex *Exec) Explore(st0 *State, fn *ssa.Function, args []Value) {
 		end := ex.runPath(st)
 		ex.stats.Paths[end.kind]++
 		npaths++
-		if ex.progress && npaths%50 == 0 {
+		if ex.progress && (npaths%50 == 0 || (npaths < 50 && npaths%5 == 0)) {
 			fmt.Fprintf(os.Stderr, "progress: %d paths %v, %d pending, %d instrs, %d queries, solver %v, fallbacks %d (cvc5 solved %d in %v), alt %v\n", npaths, ex.stats.Paths, len(ex.work), ex.stats.Instrs, ex.solver.NQueries, ex.solver.Time.Round(time.Millisecond), ex.stats.Fallbacks, ex.stats.Fallbacks2, ex.cvc5Time.Round(time.Millisecond), ex.alt.Time.Round(time.Millisecond))
 		}
 		if end.kind == "unsupported" || end.kind == "truncated" {
